@@ -36,7 +36,19 @@ def handle (op : String) (args : List String) : Option String :=
   | "avc.rec.spec", [p, c, l, m, sps, pps] => do
     let p ← p.toNat?; let c ← c.toNat?; let l ← l.toNat?; let m ← m.toNat?
     let sps ← parseRaws sps; let pps ← parseRaws pps
-    pure (toHex (Spec.Avc.record (UInt8.ofNat p) (UInt8.ofNat c) (UInt8.ofNat l) m sps pps))
+    pure (toHex (Spec.Avc.recordBase (UInt8.ofNat p) (UInt8.ofNat c) (UInt8.ofNat l) m sps pps))
+  -- the conformant record: `ext` = `-` (none) or chroma.luma.chroma.SPSEXT
+  | "avc.rec.spec2", [p, c, l, m, sps, pps, ext] => do
+    let p ← p.toNat?; let c ← c.toNat?; let l ← l.toNat?; let m ← m.toNat?
+    let sps ← parseRaws sps; let pps ← parseRaws pps
+    let e : Option Spec.Avc.HighExt ← (if ext == "-" then some none else
+      match ext.splitOn "." with
+      | [a, b, d, x] => do
+        let a ← a.toNat?; let b ← b.toNat?; let d ← d.toNat?; let x ← parseRaws x
+        pure (some ⟨a, b, d, x⟩)
+      | _ => none)
+    pure (toHex (Spec.Avc.record (UInt8.ofNat p) (UInt8.ofNat c) (UInt8.ofNat l) m sps pps e))
+  | "avc.needsext", [p] => do let p ← p.toNat?; pure (if Spec.Avc.needsExt (UInt8.ofNat p) then "1" else "0")
   | "avc.nalu.spec", [r, t, d] => do
     let r ← r.toNat?; let t ← t.toNat?; let d ← parseBytes d
     pure (toHex (Spec.Avc.nalUnit r t d))
